@@ -95,6 +95,7 @@ class Proj:
         self.tasks = []
         self.shifts = {}              # name -> hours dict
         self.shift_leaves = {}        # name -> [(startDt, endDt|None)]: leaves declared inside the shift
+        self.ptz = "UTC"              # time zone of the project header: the zone every date of the text and of the reports is in
         self.default_hours = None     # hours dict written in the project header: the default of everybody without hours of their own
         self.global_rate = None       # 'rate' at global scope: the default of every resource that states none
         self.flag_decl = []           # flag names declared at global scope ('flags red, blue')
@@ -176,7 +177,7 @@ class Proj:
     def render(self, dep_style="rel", comments=False):
         L = []
         L.append('project %s "P" %s %s {' % (self.pid, fmt_date(self.start), self.length))
-        L.append('  timezone "UTC"')
+        L.append('  timezone "%s"' % self.ptz)
         L.append('  timeformat "%Y-%m-%d %H:%M"')
         if self.G != 3600:
             L.append("  timingresolution %s" % fmt_dur(self.G))
@@ -419,7 +420,7 @@ class Proj:
                                  for k, v in r.limits]})
         vac = [[self.secs(a), self.secs(b) if b else self.secs(a) + 86400] for a, b in self.vac]
         gl = [[self.secs(a), self.secs(b) if b else self.secs(a) + 86400] for a, b in self.gleaves]
-        return {"tasks": T, "res": R, "vac": vac, "gleaves": gl, "alap": self.alap}
+        return {"tasks": T, "res": R, "vac": vac, "gleaves": gl, "alap": self.alap, "ptz": self.ptz}
 
 
 def fmt_limit(sec):
@@ -620,6 +621,9 @@ def calendars(rng, n, zones=None):
             rng.shuffle(pair)
             (vac if rng.random() < 0.7 else gl).extend(pair)
         p = Proj(start=start, G=G, length="+3w", alap=alap, vac=vac, gleaves=gl)
+        if i % 4 == 1:
+            # the dates of the text are in the zone the project header names; a resource in a zone of its own works at ITS local time
+            p.ptz = rng.choice(["America/New_York", "Europe/Berlin", "Asia/Tokyo", "Australia/Sydney", "America/Los_Angeles", "Europe/London"])
         if rng.random() < 0.25:
             # the project header declares the default working hours (for everybody without hours / shift of their own)
             p.default_hours = rng.choice([std_hours(480, 720, range(4)), std_hours(600, 1140), {d: [(420, 660), (720, 900)] for d in range(6)}])
@@ -2076,6 +2080,8 @@ def dst_weekend(rng, n):
         start = (sw - timedelta(days=rng.randint(1, 3))).replace(hour=rng.choice([0, 6, 12]), minute=0, second=0, microsecond=0)
         alap = rng.random() < 0.4
         p = Proj(start=start, G=G, length="+2w", alap=alap)
+        if i % 3 == 2:
+            p.ptz = rng.choice(["America/New_York", "Europe/Berlin", "Asia/Tokyo", "America/Los_Angeles", "Europe/London"])      # project time is not UTC
         style = rng.choice(["all", "weekend_day", "sat_night", "sun", "nights"])
         if style == "all":
             hours = {d: [(rng.choice([360, 540]), rng.choice([1020, 1320]))] for d in range(7)}
